@@ -5,4 +5,5 @@ CONSTANTS
   Classes = {10, 11, 12, 13}
 INIT Init
 NEXT Next
+INVARIANT Emit
 CHECK_DEADLOCK FALSE
